@@ -13,7 +13,7 @@ PROPERTY = 'C03'
 RULE = ('Bounded-future typed grammar (bounded eventually/always/until, next/s_next, all past operators, Boolean, arithmetic incl. unary '
         'minus/ln/log; a binary node with children of different horizon is frequent) x random traces of length up to h+8. Oracle: '
         'parse(); pastify(); feed one sample per update; for every i >= h (h = harness horizon, next counts 1): update_i == '
-        'R-dt(phi, w[0..i])[i-h] (reference on the trace seen so far). Lane giant: eventually/always (and once/historically) with windows of 200..1100 samples (around 256, 512, 1024), alone, negated, with their dual, twice over different variables or next to a sibling without look-ahead, on mostly flat traces with isolated extreme samples. Lane pastonly: specifications without future operators: pastified '
+        'R-dt(phi, w[0..i])[i-h] (reference on the trace seen so far); in one case in five pastify() is called twice. Lane giant: eventually/always (and once/historically) with windows of 200..1100 samples (around 256, 512, 1024), alone, negated, with their dual, twice over different variables or next to a sibling without look-ahead, on mostly flat traces with isolated extreme samples. Lane pastonly: specifications without future operators: pastified '
         'monitor == un-pastified monitor == R-dt at every step. Lanes units / units_pastonly (machinery of C08): two spellings of the same durations with unit suffixes, another default unit and '
         'a sampling period != 1 s, compared with each other and with the reference after pastify(). Lane reject: an unbounded future operator makes pastify() raise RTAMTException. Non-trivial = h >= 1, n > h '
         'and the formula has two siblings of different horizon or a future operator nested in a future operator (pastonly: a stateful '
@@ -74,7 +74,9 @@ def main_cases(draw, tier, base=None):
     h = F.horizon(f) or 0
     n = h + draw(st.sampled_from([1, 1, 2, 3, 4, 5, 6, 8]))
     tr = draw(F.traces(vs, n=n))
-    return {'formula': f, 'vars': vs, 'trace': tr}
+    # one case in five calls pastify() a second time: the rewritten specification has no future operator left, so the
+    # second call must not change anything
+    return {'formula': f, 'vars': vs, 'trace': tr, 'pastify_twice': draw(st.integers(0, 4)) == 0}
 
 
 def strat_pastonly(tier):
@@ -141,7 +143,11 @@ def check_main(case):
             refs[i] = dt(f, {v: xs[:i + 1] for v, xs in w.items()}, i + 1)[i - h]
     except Undefined:
         return DISCARD('undefined', labels)
-    o = run_dt_on(text, feed, w, pastify=True)
+    times = 2 if case.get('pastify_twice') else 1
+    if times == 2:
+        labels.append('pastify-twice')
+        text = text + '   [pastify() called twice]'
+    o = run_dt_on(text.split('   [')[0], feed, w, pastify=times)
     if o[0] != 'ok':
         return FAIL('exc:%s@%s' % (o[1], o[4]), 'spec: %s (horizon %d)\ntrace: %s\npastified monitor raised %s: %s at %s' % (
             text, h, w, o[1], o[3], o[4]), labels)
